@@ -45,6 +45,8 @@ pub struct Wire {
     pub write_zero_after: Option<u64>,
     /// how often the Ok(0) answer was really given
     pub zero_answers: u64,
+    /// accept at most this many bytes per write call (all modes)
+    pub max_accept: Option<usize>,
     /// what poll_close answers (the library need not call it at all): 0 = Ok, 1 = Err, 2 = Pending once
     pub close_mode: u8,
     pub close_polls: u64,
@@ -89,6 +91,7 @@ impl Wire {
             write_zero: false,
             write_zero_after: None,
             zero_answers: 0,
+            max_accept: None,
             close_mode: 0,
             close_polls: 0,
             read_waker: None,
@@ -266,6 +269,10 @@ impl MockWrite {
                     }
                 }
             }
+        };
+        let n = match w.max_accept {
+            Some(m) => n.min(m.max(1)),
+            None => n,
         };
         w.pending_armed = true;
         w.out.extend_from_slice(&buf[..n]);
